@@ -168,6 +168,8 @@ def line(op):
         circ = (not linear) or kind == "circrec"
         return "\t".join(["SEARCH", w(pat), w(word), "1" if circ else "0", str(pos),
                           "-" if endpos is None else str(endpos)])
+    if k == "FITS":
+        return "\t".join(["FITS", w(op[1]), w(op[2])])
     if k in ("ROT", "ROTL"):
         _, word, kk, feats, track = op
         return "\t".join([k, w(word), str(kk), enc_feats(feats), enc_list(",", track)])
@@ -208,6 +210,47 @@ def search_target(word, kind):
     raise ValueError(kind)
 
 
+_fit_rx = {}
+
+
+def count_fits(pat, word):
+    """number of ways the pattern fits the circular word (start below the length, one-turn window), counted
+    with the real `DNARegex`: every wildcard run `X*` / `X*?` is spelt out as `X` repeated j times, for every
+    j, and the expanded pattern is searched anchored at every start"""
+    import itertools
+    import gen
+    toks = gen.tokens(pat)
+    stars = [i for i, t in enumerate(toks) if t[0] == "star"]
+    n = len(word)
+    fixed = sum(1 for t in toks if t[0] == "cls")
+    total = 0
+    target = Seq(word)
+    for js in itertools.product(range(n + 1), repeat=len(stars)):
+        if fixed + sum(js) > n:
+            continue
+        parts = []
+        it = iter(js)
+        for t in toks:
+            if t[0] == "open":
+                parts.append("(")
+            elif t[0] == "close":
+                parts.append(")")
+            elif t[0] == "cls":
+                parts.append(t[1])
+            else:
+                parts.append(t[1] * next(it))
+        ex = "".join(parts)
+        rx = _fit_rx.get(ex)
+        if rx is None:
+            rx = _fit_rx[ex] = DNARegex(ex)
+            if len(_fit_rx) > 20000:
+                _fit_rx.clear()
+        for i in range(n):
+            if rx.search(target, pos=i, endpos=i + 1, linear=False) is not None:
+                total += 1
+    return total
+
+
 def as_str(x):
     return str(x.seq) if isinstance(x, SeqRecord) else str(x)
 
@@ -231,6 +274,8 @@ def run(op):
             marks += list(m.span(i))
         marks.append(m.end())
         return "\t".join(["some", enc_list(",", marks)] + [w(as_str(m.group(i))) for i in range(ng + 1)])
+    if k == "FITS":
+        return str(count_fits(op[1], op[2]))
     if k in ("ROT", "ROTL"):
         _, word, kk, feats, track = op
         rec = mk_record(CRec(0, word, feats, []), track=track)
